@@ -1,8 +1,11 @@
 package props
 
 import (
+	"bufio"
 	"bytes"
 	"fmt"
+	"os"
+	"path/filepath"
 
 	"gitlab.com/gomidi/midi/v2/smf"
 
@@ -23,7 +26,7 @@ func init() {
 			"resolution 0 (alias of 960), resolutions above 32767 (clamped) and more than 65535 tracks are outside the stated domain",
 			"messages are non-empty smf.Message values: channel messages, FF type VLQ payload metas in canonical form, F0/F7 sysex and escape messages",
 		},
-		Require: []string{"histories", "smpte_files", "rs_elisions_by_writer", "delta_ge_2^28", "early_close", "add_after_close", "variadic_add", "unclosed_tracks", "events_compared", "norunningstatus_files"},
+		Require: []string{"histories", "smpte_files", "rs_elisions_by_writer", "delta_ge_2^28", "early_close", "add_after_close", "variadic_add", "unclosed_tracks", "events_compared", "norunningstatus_files", "file_roundtrips"},
 		Run:     runC01,
 	})
 }
@@ -264,6 +267,34 @@ func c01Check(c *mon.Ctx, a *apiValue, label string) {
 			} else if diff := ref.EqualFiles(a.sh, fromLib(s3)); diff != "" {
 				c.Violation("roundtrip", "round trip without running status changed the content: "+diff, in, describeFile(a.sh, 20), describeFile(fromLib(s3), 20))
 			}
+		}
+	}
+	// a share of the values also goes through real files and a buffered reader
+	if len(b)%5 == 0 && c.Dir != "" {
+		path := filepath.Join(c.Dir, fmt.Sprintf("c01-%d.mid", c.Shard))
+		var werr error
+		if !c.Guard("panic:WriteFile", in, func() { werr = a.s.WriteFile(path) }) {
+			if werr != nil {
+				c.Violation("writefile-error", "WriteFile fails: "+werr.Error(), in, nil, nil)
+			} else {
+				for k, rf := range []func() (*smf.SMF, error){
+					func() (*smf.SMF, error) { return smf.ReadFile(path) },
+					func() (*smf.SMF, error) { return smf.ReadFrom(bufio.NewReaderSize(bytes.NewReader(b), 16+len(b)%300)) },
+				} {
+					var s4 *smf.SMF
+					var err error
+					if c.Guard("panic:ReadFile", in, func() { s4, err = rf() }) {
+						continue
+					}
+					c.Count("file_roundtrips", 1)
+					if err != nil {
+						c.Violation("readfile-error", fmt.Sprintf("reading the written file back (source %d: 0 = ReadFile, 1 = bufio) fails: %v", k, err), in, nil, err.Error())
+					} else if diff := ref.EqualFiles(a.sh, fromLib(s4)); diff != "" {
+						c.Violation("roundtrip-file", "round trip through a real file / buffered reader changed the content: "+diff, in, nil, nil)
+					}
+				}
+			}
+			os.Remove(path)
 		}
 	}
 	c.Count("histories", 1)
